@@ -175,10 +175,20 @@ func (f FatalPanic) Error() string { return string(f) }
 type Mutex struct {
 	real sync.Mutex
 	held bool
+	ep   uint64 // execution in which the state above was last touched (see vrt.Epoch)
+}
+
+// fresh forgets what tasks of an earlier execution left behind.
+//
+//go:norace
+func (m *Mutex) fresh() {
+	if ep := vrt.Epoch(); m.ep != ep {
+		m.held, m.ep = false, ep
+	}
 }
 
 //go:norace
-func (m *Mutex) VrtReady(kind vrt.OpKind, t *vrt.Task) bool { return !m.held }
+func (m *Mutex) VrtReady(kind vrt.OpKind, t *vrt.Task) bool { m.fresh(); return !m.held }
 
 //go:norace
 func (m *Mutex) Lock() {
@@ -187,6 +197,7 @@ func (m *Mutex) Lock() {
 		m.real.Lock()
 		return
 	}
+	m.fresh()
 	if !e.Sched(vrt.OpLock, m, unsafe.Pointer(m)) {
 		return
 	}
@@ -203,6 +214,7 @@ func (m *Mutex) TryLock() bool {
 	if !e.Sched(vrt.OpPoint, nil, unsafe.Pointer(m)) {
 		return false
 	}
+	m.fresh()
 	if m.held {
 		return false
 	}
@@ -221,6 +233,7 @@ func (m *Mutex) Unlock() {
 	if e.Aborted() {
 		return
 	}
+	m.fresh()
 	if !m.held {
 		panic(FatalPanic("fatal error: sync: unlock of unlocked mutex"))
 	}
@@ -238,10 +251,19 @@ type RWMutex struct {
 	readers  int
 	readerSm byte
 	writerSm byte
+	ep       uint64
+}
+
+//go:norace
+func (rw *RWMutex) fresh() {
+	if ep := vrt.Epoch(); rw.ep != ep {
+		rw.wHeld, rw.wActive, rw.readers, rw.ep = false, false, 0, ep
+	}
 }
 
 //go:norace
 func (rw *RWMutex) VrtReady(kind vrt.OpKind, t *vrt.Task) bool {
+	rw.fresh()
 	switch kind {
 	case vrt.OpRLock, vrt.OpWAnnounce:
 		return !rw.wHeld
@@ -258,6 +280,7 @@ func (rw *RWMutex) RLock() {
 		rw.real.RLock()
 		return
 	}
+	rw.fresh()
 	if !e.Sched(vrt.OpRLock, rw, unsafe.Pointer(rw)) {
 		return
 	}
@@ -274,6 +297,7 @@ func (rw *RWMutex) TryRLock() bool {
 	if !e.Sched(vrt.OpPoint, nil, unsafe.Pointer(rw)) {
 		return false
 	}
+	rw.fresh()
 	if rw.wHeld {
 		return false
 	}
@@ -292,6 +316,7 @@ func (rw *RWMutex) RUnlock() {
 	if e.Aborted() {
 		return
 	}
+	rw.fresh()
 	if rw.readers <= 0 {
 		panic(FatalPanic("fatal error: sync: RUnlock of unlocked RWMutex"))
 	}
@@ -307,6 +332,7 @@ func (rw *RWMutex) Lock() {
 		rw.real.Lock()
 		return
 	}
+	rw.fresh()
 	if !e.Sched(vrt.OpWAnnounce, rw, unsafe.Pointer(rw)) {
 		return
 	}
@@ -330,6 +356,7 @@ func (rw *RWMutex) TryLock() bool {
 	if !e.Sched(vrt.OpPoint, nil, unsafe.Pointer(rw)) {
 		return false
 	}
+	rw.fresh()
 	if rw.wHeld || rw.readers != 0 {
 		return false
 	}
@@ -350,6 +377,7 @@ func (rw *RWMutex) Unlock() {
 	if e.Aborted() {
 		return
 	}
+	rw.fresh()
 	if !rw.wActive {
 		panic(FatalPanic("fatal error: sync: Unlock of unlocked RWMutex"))
 	}
@@ -375,12 +403,20 @@ type WaitGroup struct {
 	w    uint32
 	sema int
 	semA byte // address standing in for wg.sema in race annotations
+	ep   uint64
+}
+
+//go:norace
+func (wg *WaitGroup) fresh() {
+	if ep := vrt.Epoch(); wg.ep != ep {
+		wg.v, wg.w, wg.sema, wg.ep = 0, 0, 0, ep
+	}
 }
 
 type wgResume struct{ wg *WaitGroup }
 
 //go:norace
-func (r wgResume) VrtReady(kind vrt.OpKind, t *vrt.Task) bool { return r.wg.sema > 0 }
+func (r wgResume) VrtReady(kind vrt.OpKind, t *vrt.Task) bool { r.wg.fresh(); return r.wg.sema > 0 }
 
 // Add and Wait are instrumented, non-inlined wrappers around norace bodies, so that
 // the caller's frame (the ebu function) appears in race reports raised by the
@@ -399,6 +435,7 @@ func (wg *WaitGroup) add(delta int) {
 		wg.real.Add(delta)
 		return
 	}
+	wg.fresh()
 	if !e.Sched(vrt.OpWGAdd, nil, unsafe.Pointer(wg)) {
 		return
 	}
@@ -451,6 +488,7 @@ func (wg *WaitGroup) wait() {
 		wg.real.Wait()
 		return
 	}
+	wg.fresh()
 	if !e.Sched(vrt.OpWGWait, nil, unsafe.Pointer(wg)) {
 		return
 	}
@@ -521,6 +559,14 @@ type Cond struct {
 	once    sync.Once
 	real    *sync.Cond
 	waiters []*condWaiter
+	ep      uint64
+}
+
+//go:norace
+func (c *Cond) fresh() {
+	if ep := vrt.Epoch(); c.ep != ep {
+		c.waiters, c.ep = nil, ep
+	}
 }
 
 func NewCond(l Locker) *Cond { return &Cond{L: l} }
@@ -540,6 +586,7 @@ func (c *Cond) Wait() {
 	if e.Aborted() {
 		return
 	}
+	c.fresh()
 	w := &condWaiter{}
 	c.waiters = append(c.waiters, w)
 	e.Note(vrt.OpCondWait, unsafe.Pointer(c), true)
@@ -560,6 +607,7 @@ func (c *Cond) Signal() {
 	if e.Aborted() {
 		return
 	}
+	c.fresh()
 	if len(c.waiters) > 0 {
 		c.waiters[0].notified = true
 		c.waiters = c.waiters[1:]
@@ -577,6 +625,7 @@ func (c *Cond) Broadcast() {
 	if e.Aborted() {
 		return
 	}
+	c.fresh()
 	for _, w := range c.waiters {
 		w.notified = true
 	}
